@@ -165,6 +165,7 @@ def precheck (rec : Rec) : List (PRef × Int) → St → Option (St × Except Er
   | (.comp c, v) :: rest, s =>
     match rec (.readC c) s with
     | none => none
+    | some (s1, .err .noneVal) => some (s1, .ok true)      -- `None != v`
     | some (s1, .err e) => some (s1, .error e)
     | some (s1, .ok v') => if v' ≠ v then some (s1, .ok true) else precheck rec rest s1
 
@@ -174,6 +175,7 @@ def readAll (rec : Rec) : List Nat → St → Option (St × R)
   | c :: cs, s =>
     match rec (.readC c) s with
     | none => none
+    | some (s1, .err .noneVal) => readAll rec cs s1
     | some (s1, .err e) => some (s1, .err e)
     | some (s1, .ok _) => readAll rec cs s1
 
@@ -227,7 +229,7 @@ def stepF (rec : Rec) : Task → St → Option (St × R)
       let old := x.value
       -- Computed.__call__ --------------------------------------------------------------
       let called : Option (St × R) :=
-        if !x.dirty then some (s, .ok (x.value.getD 0))
+        if !x.dirty then some (s, match x.value with | some v => .ok v | none => .err .noneVal)
         else
           let s0 := s.setComp c { x with first := false }
           -- pre-check (not on the first evaluation), outside the enclosing evaluation (G9 repaired)
@@ -257,7 +259,8 @@ def stepF (rec : Rec) : Task → St → Option (St × R)
             else
               match s1.comps c with
               | none => some (s1, .err .attr)
-              | some x1 => some (s1.setComp c { x1 with dirty := false }, .ok (x1.value.getD 0))
+              | some x1 => some (s1.setComp c { x1 with dirty := false },
+                  match x1.value with | some v => .ok v | none => .err .noneVal)
       -- back in Computable.__get__ -----------------------------------------------------------
       match called with
       | none => none
